@@ -131,6 +131,10 @@ def chunk_encode(tape, rng, coded, hints, base, eol=b'\r\n'):
         trailers = b'X-Trailer: tv' + eol
         if tape.chance(1, 2, 'trailer2'):
             trailers += b'Content-MD5: Q2hlY2s=' + eol
+        if tape.chance(1, 3, 'trailer3'):
+            # fields that would mean something in the header block: in the trailer they describe nothing that was decided before
+            # (RFC 7230 4.1.2: framing, routing, ... fields are not allowed there; a recipient may ignore them, never apply them late)
+            trailers += tape.choice((b'Content-Type: text/x-from-trailer', b'Content-Length: 3', b'Content-Encoding: gzip', b'Connection: close'), 'trailer3.f') + eol
     out += trailers
     hints.append(base + len(out))
     out += eol if not tape.chance(1, 12, 'chunk.final_lf') else b'\n'
